@@ -35,9 +35,29 @@ fn copy_dir(from: &Path, to: &Path) {
     }
 }
 
+/// The publication server keeps the absolute paths of its RRDP and rsync directories in its
+/// stored state: a copy of a data directory must have them point into the copy.
+fn relocate(dir: &Path, from: &str, to: &str) {
+    let Ok(rd) = std::fs::read_dir(dir) else { return };
+    for e in rd.filter_map(|e| e.ok()) {
+        let p = e.path();
+        if p.is_dir() {
+            relocate(&p, from, to);
+        } else if let Ok(text) = std::fs::read_to_string(&p) {
+            if text.contains(from) {
+                std::fs::write(&p, text.replace(from, to)).expect("relocate");
+            }
+        }
+    }
+}
+
 fn fork(src: &Scratch, tag: &str) -> Scratch {
     let s = Scratch::new(tag);
     copy_dir(src.path(), s.path());
+    relocate(
+        &s.path().join("data").join("pubd_objects"),
+        &src.path().display().to_string(), &s.path().display().to_string(),
+    );
     s
 }
 
@@ -103,6 +123,8 @@ fn proj(v: &Value, top: &str, ents: &[String]) -> Value {
     Value::Object(m)
 }
 
+const RRDP_BASE: &str = "https://localhost:3000/rrdp/";
+
 struct Main {
     sys: sys::Sys,
     cfg: HashMap<String, String>,
@@ -152,7 +174,8 @@ fn dry_run(m: &Main, domain: &str, op: &str, with_pump: bool) -> Dry {
     let muts: Vec<String> = if domain == "kv" {
         kv.iter().map(|(k, w)| format!("{k}:{}", canon_path(&w.replace(&root, ""))) ).collect()
     } else {
-        fs.iter().map(|(k, p, _)| format!("{k}:{}", canon_path(&p.display().to_string().replace(&root, "")))).collect()
+        // file-system mutations keep their numbers: the serial directories are what the order model is about
+        fs.iter().map(|(k, p, _)| format!("{k}:{}", p.display().to_string().replace(&root, "").trim_start_matches('/'))).collect()
     };
     let ret = o.get("ret").and_then(|r| r.as_str()).map(|s| s.to_string()).unwrap_or_default();
     // the twin goes through a restart as well, so that start-up work is the same on both sides
@@ -230,6 +253,11 @@ fn fault_line(m: &mut Main, mode: &str, domain: &str, which: &str, op: &str, out
         let mut problems;
         let at_cut: Value;
         let restarted = mode == "crash" || sched_exits > 0;
+        // what a relying party finds in the RRDP directory at this instant (before a restarted
+        // instance gets a chance to write)
+        let rrdp_disk_at_cut: Vec<String> = kharness::rrdpdisk::check(
+            &s.scratch().path().join(krill::constants::REPOSITORY_DIR), RRDP_BASE
+        ).into_iter().filter(|p| p != "no-notification").collect();
         if restarted {
             let scratch = s.into_scratch();
             let mut s2 = sys::Sys::open(scratch, true, "restart-disk", &m.cfg, false);
@@ -281,6 +309,9 @@ fn fault_line(m: &mut Main, mode: &str, domain: &str, which: &str, op: &str, out
             s = s2;
         }
         let fin = semantic(&obs_json(&mut s));
+        let rrdp_disk_final: Vec<String> = kharness::rrdpdisk::check(
+            &s.scratch().path().join(krill::constants::REPOSITORY_DIR), RRDP_BASE
+        ).into_iter().filter(|p| p != "no-notification").collect();
         let same = fin == dry.twin;
         let diff = if same { Value::Null } else { json!(first_diff(&dry.twin, &fin, "")) };
         let line = format!("faultcut {mode} {domain} {n} :: {op}");
@@ -292,7 +323,7 @@ fn fault_line(m: &mut Main, mode: &str, domain: &str, which: &str, op: &str, out
                     "missing" | "hash-mismatch" | "crl-missing" | "multiple-crls" | "decode-error" | "bad-signature"
                     | "invalid-object" | "duplicate-entry" | "panic")).cloned().collect::<Vec<_>>()
             }).unwrap_or_default()),
-            "ent_names": ents,
+            "ent_names": ents, "rrdp_disk_at_cut": rrdp_disk_at_cut, "rrdp_disk_final": rrdp_disk_final,
             "resubmit": resubmit, "converged": same, "diff": diff,
         });
         writeln!(out, "{line} => {obs}").unwrap();
